@@ -29,7 +29,7 @@ low = sorted([r for r in rows if r[2] < 60.0], key=lambda r: (r[2], r[0], r[1]))
 out = ["# Statement coverage of /repo under the correspondence checks", "",
        "Produced by `tools/coverage.py` (quick tier of %s; /repo %s, /verif %s). Binaries built with `go build -cover`; killed processes" % (", ".join(props) if len(props) < 20 else "all twenty checks", head, vh),
        "write no counters, so these are lower bounds. Harness files (overlay) are left out.", "", "```", pct.strip(), "```", "",
-       "Functions below 60 % (%d of %d):" % (len(low), len(rows)), "", "| file | function | % |", "|---|---|---|"]
+       "Functions below 60 %% (%d of %d):" % (len(low), len(rows)), "", "| file | function | % |", "|---|---|---|"]
 out += ["| %s | %s | %.1f |" % r for r in low]
 open(os.path.join(VERIF, "COVERAGE.md"), "w").write("\n".join(out) + "\n")
 print(pct)
